@@ -151,6 +151,11 @@ def main(argv=None):
         jobs += [(c, 2, 60000, "c10") for c in c2]
         cfgs = cfgs + c2
     cfgs = extra + cfgs
+    # large-population leg (see _stochfam.big_configs): 1 000 individuals, answers relative to the requested mean
+    big, big_skipped = fam.big_configs(seed_defs if quick else sdefs, pool.pmap)
+    seed_keys = {fam.gen.canon(d) for _s, d in seed_defs}
+    jobs += [(c, 2 if fam.gen.canon(c.d) in seed_keys else 1, 100000, "c10") for c in big]
+    cfgs = cfgs + big
     res = pool.pmap(stoch.explore_config, jobs, chunksize=1)
     ex, steps, capped, nout = fam.summarize_l2(run, res, cfgs)
     l1j = fam.l1_jobs(sdefs, run.tier)
@@ -168,6 +173,7 @@ def main(argv=None):
                 "right-hand side at 4 points; (b) integrate/solve_determ/integrate2 on a slice: row sums constant; (c) every "
                 "execution of solve_stochast within the deviation bound and every step from every reachable state (L1) keeps the "
                 "total exactly. non-trivial = definition with a non-zero ode / solution that moves by >1e-3 / distinct paths" % (dbound, seeds_det),
+        "large_population_configurations": len(big), "large_population_skipped": big_skipped,
         "states": l1s, "transitions": l1t, "traces_validated_against_impl": ex,
         "definitions_symbolic": nsym, "deterministic_runs": ndet, "generator_executions": ngen,
         "capped_configurations": capped[:20],
